@@ -11,6 +11,7 @@ namespace sim {
 
 Run *R = nullptr;
 bool g_race_build = false;
+const char *g_race_property = "C14";
 
 static inline Thread &T() { return *R->threads[R->cur]; }
 
@@ -41,6 +42,7 @@ void violation(const char *prop, const char *sig, const char *fmt, ...) {
 
 // ------------------------------------------------------------------ run life cycle
 void run_begin(const Config &cfg) {
+    race_reset();
     R = new Run();
     R->cfg = cfg;
     R->r_sched = fork_rng(cfg.seed, "sched");
@@ -323,6 +325,16 @@ void thread_join(int tid) {
     if (me.vc.size() < o.vc.size()) me.vc.resize(o.vc.size(), 0);
     for (size_t i = 0; i < o.vc.size(); i++) me.vc[i] = std::max(me.vc[i], o.vc[i]);
     tr("thread_joined", tid);
+}
+
+void set_own_stream(int logical_id) {
+    Thread &t = T();
+    t.own_stream = true;
+    t.r_own = fork_rng(R->cfg.seed, "epoll-own", (uint64_t)logical_id);
+}
+Rng &epoll_rng() {
+    if (R->cur >= 0 && T().own_stream) return T().r_own;
+    return R->r_epoll;
 }
 
 void sleep_ns(uint64_t ns) {
